@@ -109,37 +109,62 @@ theorem tx_source {f : Frame} {m : Maps} {clk : UInt64} {f' : Frame} (hlen : f.l
       cases hmk
       exact Or.inr (Or.inr hl)
 
+/-- how a lease is tied to the frame it answers: its MAC has the MAC key of the request's `chaddr`, or its
+    circuit-id has the circuit-id key the program extracted from the request -/
+def Owns (l : Lease) (f : Frame) (p : Pkt) : Prop :=
+  macKeyOf l.mac = macKeyOf (bytesAt f (p.dhcpOff + 28) 6) ∨
+  (l.cidBytes ≠ [] ∧ extractCid f p.dhcpOff = .ok (some (cidKeyOf l.cidBytes)))
+
+/-- **After the end / expiry / agreement, in one statement.**  On a cache maintained by the slow path (`Inv`), a
+    transmission was answered from the entry written for a lease `l` that userspace STILL holds and that owns the
+    request (`Owns`), the program's clock has not passed that lease's expiry, the pool bytes are the encoding of a
+    pool `P` the manager holds under the lease's pool id, and the frame is the closed-form reply for exactly those
+    bytes. -/
+theorem tx_from_live_lease {s : Srv} (hinv : Inv s) {f : Frame} {clk : UInt64} {f' : Frame} (hlen : f.length < 65536)
+    (h : run f s.maps clk = .ok (XDP_TX, f')) :
+    ∃ p t l pc P cfg, Hit f s.maps clk p t (encAssignment (assignmentOf l pc)) (encPool P) cfg ∧
+      AMap.lookup s.leases l.mac = some l ∧ Owns l f p ∧
+      ¬ (clk / 1000000000 > UInt64.ofNat l.exp) ∧
+      AMap.lookup s.pools P.id = some P ∧ le32 P.id = le32 l.poolId ∧
+      s.maps.cfg = some cfg ∧ (rd32 cfg 8 = s.serverIp ∨ rd32 cfg 8 = 0) ∧
+      f' = replyP f p t (encAssignment (assignmentOf l pc)) (encPool P) cfg := by
+  rcases ((run_Ok f s.maps clk).elim h).2 hlen with h1 | ⟨p, t, a, pool, cfg, hh, h2⟩
+  · exact absurd (Prod.mk.inj h1).1 (by decide)
+  · have hf : f' = replyP f p t a pool cfg := (Prod.mk.inj h2).2
+    -- which lease wrote the entry
+    have hl : ∃ l pc, AMap.lookup s.leases l.mac = some l ∧ Owns l f p ∧ a = encAssignment (assignmentOf l pc) := by
+      rcases lookupAssignment_source hh.found with ⟨_, hv⟩ | ⟨k, hk, hc⟩ | ⟨mk, hmk, hm⟩
+      · rw [hinv.vlanEmpty] at hv; simp at hv
+      · obtain ⟨l, pc, h1, h2, h3, _, h5⟩ := hinv.cid k a hc
+        exact ⟨l, pc, h1, Or.inr ⟨h2, by rw [h3]; exact hk⟩, h5⟩
+      · rw [macKey_eq hh.wf.room] at hmk
+        cases hmk
+        obtain ⟨l, pc, h1, h2, h3⟩ := hinv.sub _ a hm
+        exact ⟨l, pc, h1, Or.inl h2, h3⟩
+    obtain ⟨l, pc, hl1, hl2, ha⟩ := hl
+    subst ha
+    obtain ⟨P, hP1, hP2, hP3⟩ := hinv.pools _ pool hh.pool
+    subst hP3
+    obtain ⟨c, hc1, hc2⟩ := hinv.cfg
+    have hcc : cfg = c := by
+      have := hh.cfg; rw [hc1] at this; exact (Option.some.inj this).symm
+    subst hcc
+    have hlive := hh.live
+    rw [rd64_encAssignment_expiry] at hlive
+    have hpid : le32 P.id = le32 l.poolId := by
+      rw [← hP2]
+      simp [encAssignment, assignmentOf, rdBytes, le32, leBytes4_eq]
+    exact ⟨p, t, l, pc, P, cfg, hh, hl1, hl2, hlive, hP1, hpid, hc1, hc2, hf⟩
+
 /-- **After the end.**  On a cache maintained by the slow path (`Inv`), a transmission implies that userspace
     holds a lease owning the answering entry: a lease for the requesting MAC (MAC stage) or a lease whose
     circuit-id has the frame's circuit-id key.  Hence a client whose lease was released, declined, cleaned up
     after expiry, and whose circuit-id key no other live lease shares, is not answered. -/
 theorem tx_has_lease {s : Srv} (hinv : Inv s) {f : Frame} {clk : UInt64} {f' : Frame} (hlen : f.length < 65536)
     (h : run f s.maps clk = .ok (XDP_TX, f')) :
-    ∃ p l, parseHeaders f = .ok (some p) ∧ AMap.lookup s.leases l.mac = some l ∧
-      (macKeyOf l.mac = macKeyOf (bytesAt f (p.dhcpOff + 28) 6) ∨
-       (l.cidBytes ≠ [] ∧ extractCid f p.dhcpOff = .ok (some (cidKeyOf l.cidBytes)))) := by
-  obtain ⟨p, a, hp, _, hsrc⟩ := tx_source hlen h
-  rcases hsrc with ⟨_, hv⟩ | ⟨k, hk, hc⟩ | hm
-  · rw [hinv.vlanEmpty] at hv; simp at hv
-  · obtain ⟨l, h1, h2, h3, _⟩ := hinv.cid k a hc
-    exact ⟨p, l, hp, h1, Or.inr ⟨h2, by rw [h3]; exact hk⟩⟩
-  · obtain ⟨l, _, h1, h2, _⟩ := hinv.sub _ a hm
-    exact ⟨p, l, hp, h1, Or.inl h2⟩
-
-/-- **Expiry, when the clocks agree.**  On a maintained cache, an answer from subscriber_pools (no VLAN or
-    circuit-id entry matched) means the lease of that MAC key has not expired on the clock handed to the program:
-    if that clock is the slow path's Unix clock, an expired lease is not answered. -/
-theorem tx_mac_stage_unexpired {s : Srv} (hinv : Inv s) {f : Frame} {clk : UInt64} {f' : Frame} (hlen : f.length < 65536)
-    (h : run f s.maps clk = .ok (XDP_TX, f'))
-    (hnocid : ∀ p k, parseHeaders f = .ok (some p) → extractCid f p.dhcpOff = .ok (some k) → AMap.lookup s.maps.cid k = none) :
-    ∃ l, AMap.lookup s.leases l.mac = some l ∧ ¬ (clk / 1000000000 > UInt64.ofNat l.exp) := by
-  obtain ⟨p, a, hp, hlive, hsrc⟩ := tx_source hlen h
-  rcases hsrc with ⟨_, hv⟩ | ⟨k, hk, hc⟩ | hm
-  · rw [hinv.vlanEmpty] at hv; simp at hv
-  · rw [hnocid p k hp hk] at hc; cases hc
-  · obtain ⟨l, pc, h1, _, h3⟩ := hinv.sub _ a hm
-    refine ⟨l, h1, ?_⟩
-    rw [h3, rd64_encAssignment_expiry] at hlive
-    exact hlive
+    ∃ p l, parseHeaders f = .ok (some p) ∧ AMap.lookup s.leases l.mac = some l ∧ Owns l f p ∧
+      ¬ (clk / 1000000000 > UInt64.ofNat l.exp) := by
+  obtain ⟨p, t, l, pc, P, cfg, hh, h1, h2, h3, _⟩ := tx_from_live_lease hinv hlen h
+  exact ⟨p, l, hh.parsed, h1, h2, h3⟩
 
 end Bng.XdpDhcp
